@@ -23,7 +23,8 @@ type SimplePage struct {
 	// Box selects how /MediaBox is written: "" = direct numbers; "indirect" =
 	// the width and height are indirect references to number objects
 	// ([0 0 12 0 R 13 0 R], legal: any array element may be indirect);
-	// "zero" = the degenerate box [0 0 0 0].
+	// "zero" = the degenerate box [0 0 0 0]; "dangling" = [0 0 w 9999 0 R] with
+	// no object 9999.
 	Box string
 	// UserUnit, when non-zero, is written as /UserUnit (PDF 1.6: the size of a
 	// user-space unit in 1/72 inch; coordinates stay in user space).
@@ -112,6 +113,10 @@ func boxOf(i int, p SimplePage, objs *[]RevObj, next func() int) Arr {
 		return Arr{0, 0, Ref{wk}, Ref{hk}}
 	case "zero":
 		return Arr{0, 0, 0, 0}
+	case "dangling":
+		// the height is a reference to an object the file does not have (= null):
+		// the box cannot be read, the page content can
+		return Arr{0, 0, p.W, RefN{Num: 9999}}
 	}
 	return Arr{0, 0, p.W, p.H}
 }
